@@ -448,6 +448,7 @@ func c01DevFields(c *c01ctx) {
 							w.Fam("e:developer-field-definitions", 1)
 							w.DistinctS(fmt.Sprintf("dev/%d/%d/%d/%s", nreg, ndev, dsz, errClass(res.Err)))
 							c.call("DecodeChained", b, 0)
+							c.call("Decode+options", b, 0)
 							if len(b) < 20000 {
 								c.call("Decode", b, 1)
 							}
@@ -595,6 +596,10 @@ func c01Headers(c *c01ctx) {
 									w.DistinctS("hdr/" + e + "/" + errClass(res.Err))
 								}
 							}
+							for _, e := range optionEntries {
+								c.call(e, b, 0)
+								w.Fam("b:headers-with-options", 1)
+							}
 							if cut == 15 && (size == 12 || size == 14) {
 								for _, e := range entryNames {
 									c.call(e, b, 1)
@@ -726,6 +731,7 @@ func c01RecordHeaders(c *c01ctx) {
 					w.Fam("c:record-header-words", 1)
 					w.DistinctS(fmt.Sprintf("rh/%02x/%s", h1&0xE0, errClass(res.Err)))
 					c.call("DecodeChained", b, 0)
+					c.call("Decode+options", b, 0)
 					if h3 >= 0 {
 						continue
 					}
@@ -835,7 +841,7 @@ func c01Corpus(c *c01ctx) {
 	}
 	var idx int64
 	for _, it := range items {
-		for _, e := range entryNames {
+		for _, e := range append(append([]string{}, entryNames...), optionEntries...) {
 			idx++
 			if w.Mine(idx) {
 				c.call(e, it.b, 0)
@@ -870,6 +876,10 @@ func c01Corpus(c *c01ctx) {
 			c.call("Decode", it.b[:cut], 0)
 			c.call("DecodeChained", it.b[:cut], 0)
 			c.call("CheckIntegrity", it.b[:cut], 0)
+			if cut < 2048 {
+				c.call("Decode+options", it.b[:cut], 0)
+				c.call("DecodeChained+options", it.b[:cut], 0)
+			}
 			if cut < 64 {
 				c.call("DecodeHeader", it.b[:cut], 0)
 				c.call("DecodeHeaderAndFileID", it.b[:cut], 0)
